@@ -59,6 +59,23 @@ def gen(ctx):
                         for tail in ('', 'x', '-'):
                             add('offset %s' % hx(lead + sgn + body + tail))
                             add('int %s' % hx(lead + sgn + body + tail))
+    # digits that follow the point of overflow: the value's prefix equals limit div base, the next digit decides (<=, > limit mod base),
+    # and one or two more digits of every size follow - an overflow once detected must stay detected
+    for base in (8, 10, 16):
+        digs = '0123456789abcdef'[:base]
+        for limit in (I64MAX, -I64MIN):
+            prefix = tobase(limit // base, base)
+            for d1 in digs:
+                for d2 in digs:
+                    tails = [d1 + d2] + ([d1 + d2 + d3 for d3 in (digs[0], digs[-1], rnd.choice(digs))] if (ctx.thorough or d2 in (digs[0], digs[-1])) else [])
+                    for t in tails:
+                        for sgn in ('', '-', '+'):
+                            pre = rnd.choice(('0x', '0X')) if base == 16 else '0' if base == 8 else ''
+                            add('int64 %s %d %d %d' % (hx(sgn + prefix + t), base, 1, -1))
+                            if pre:
+                                add('int64 %s %d %d %d' % (hx(sgn + pre + prefix + t), 0, 1, -1))
+                            if base == 10 and sgn != '+':
+                                add('offset %s' % hx(sgn + prefix + t))
     # corner shapes
     for s in ['', '-', '+', '0x', '0X', '0xg', '-0x', '0', '-0', '+0', '00', '08', '0x0', 'x1', ' 1', '1 ', '--1', '+-1', 'a', 'A', 'z', '0xz', '١']:
         for bparam in (0, 8, 10, 16):
